@@ -9,6 +9,7 @@ import Sth.Model.Recover
 import Sth.Model.GC
 import Sth.Model.Fsck
 import Driver.Img
+import Sth.Model.Translate
 
 namespace Driver.Seq
 open Sth Driver
@@ -146,14 +147,24 @@ def stepCore (st : St) (l : Line) : St × List Msg :=
   | "open" =>
     let c : Cfg := { kind := if l.args.get "kind" = "cid" then .cid else .mh, bits := l.args.nat "bits",
                      ifs := l.args.nat "ifs", pfs := l.args.nat "pfs", imm := l.args.get "imm" = "1" }
-    let (d, r) := openStoreR c st.store.disk
+    let torder := parseOrder (ra.get "torder")
+    let (d, r, tkeys) := openStoreT c st.store.disk torder
+    let translated : Bool := !tkeys.isEmpty || (match st.store.disk.ihdr with | some h => c.bits != 0 && h.bits != c.bits | none => false)
     match r with
     | .ok m =>
+      let orderMsg := if translated && !isPerm torder tkeys then
+          [Msg.corr s!"open: re-bucketed index was written in bucket order [{natList torder}] but the model's new index holds [{natList tkeys}]"] else []
       ({ st with store := { disk := d, mem := some m }, cfg := c, everOpened := true },
-        cmp "open" "ok" l.res ++ (if st.everOpened then [Msg.flag "reopen"] else []) ++
-        (if st.everOpened ∧ l.res ≠ "ok" then [Msg.prop s!"reopen with the same configuration failed: {l.res}"] else []))
+        cmp "open" "ok" rhead ++ orderMsg ++ (if st.everOpened then [Msg.flag "reopen"] else []) ++
+        (if translated then [Msg.flag "rebucketed"] else []) ++
+        (if st.everOpened ∧ rhead ≠ "ok" then [Msg.prop s!"reopen failed: {l.res}"] else []))
     | .error e =>
-      ({ st with store := { disk := d, mem := none } }, cmp "open" (openErrStr e) l.res ++ [Msg.flag "open-error"])
+      -- a refused open must name the specific mismatch
+      let exp := openErrStr e
+      ({ st with store := { disk := d, mem := none } }, cmp "open" exp rhead ++
+        (if (e = .wrongIndexFileSize ∨ e = .wrongPrimaryFileSize) ∧ rhead ≠ exp then
+           [Msg.prop s!"open with a mismatching file-size limit must be refused with {exp}; implementation returned {l.res}"] else []) ++
+        [Msg.flag "open-error", Msg.flag ("open-" ++ exp)])
   | "rmsnap" => ({ st with store := { st.store with disk := { st.store.disk with snap := none } } }, [Msg.flag "reopen-rescan"])
   | "badsnap" =>
     let d := st.store.disk
